@@ -488,7 +488,26 @@ func (g *gen) block(indent, depth, n int, inLoop bool) []interface{} {
 			wasDef := g.def[v]
 			g.def[v] = true
 			g.ints = append(g.ints, v)
-			body := g.block(indent+1, depth-1, g.r.Intn(4), true) // possibly an empty body
+			var pre []interface{}
+			if g.r.Intn(4) == 0 {
+				// the body itself moves the loop variable forward (the step read-modify-writes whatever the body left)
+				op, inc := []string{"+=", "="}[g.r.Intn(2)], 1+g.r.Intn(2)
+				var e N
+				txt := ""
+				if op == "+=" {
+					e, txt = N{"k": "int", "v": inc}, fmt.Sprintf("%s += %d", v, inc)
+				} else {
+					e = N{"k": "bin", "op": "+", "l": N{"k": "var", "n": v}, "r": N{"k": "int", "v": inc}}
+					txt = fmt.Sprintf("%s = (%s) + (%d)", v, v, inc)
+				}
+				l0 := g.emit(indent+1, txt)
+				setLines(e, l0)
+				pre = append(pre, N{"k": "asg", "t": N{"k": "var", "n": v, "line": l0}, "op": op, "e": e, "line": l0})
+			}
+			body := append(pre, g.block(indent+1, depth-1, g.r.Intn(4), true)...) // possibly an empty body
+			if body == nil {
+				body = []interface{}{}
+			}
 			g.ints = g.ints[:len(g.ints)-1]
 			g.def[v] = wasDef
 			g.loopd--
